@@ -58,6 +58,7 @@ type CaseFile struct {
 	Checker string   // Coq function : list <Type> -> list nat   (indices of mismatching cases)
 	Terms   []string // Coq terms
 	Replays []any    // replay object per case
+	Shard   int      // cases per generated .v file (default 400)
 }
 
 type Ctx struct {
@@ -175,6 +176,10 @@ func (c *Ctx) Finish() error {
 	}
 	var shards []shardInfo
 	for _, cf := range c.CaseFiles {
+		shard := shard
+		if cf.Shard > 0 {
+			shard = cf.Shard
+		}
 		for off := 0; off < len(cf.Terms); off += shard {
 			end := off + shard
 			if end > len(cf.Terms) {
